@@ -76,7 +76,7 @@ class C12(common.Spec):
             if case['stop_data']:
                 kw['stop_data'] = {'value': STOP_ID}
             out = edzed.OutputAsync(
-                'out', coro=coro_entry, mode=case['mode'],
+                'out', coro=coro_entry, mode=case['mode'][0] if case.get('abbrev') else case['mode'],
                 guard_time=case['guard_us'] / 1e6 if case['guard_us'] else None,
                 on_success=edzed.Event(dest, 'success'), on_error=edzed.Event(dest, 'error'),
                 on_cancel=edzed.Event(dest, 'cancel'), on_output=edzed.Event(dest, 'out'),
@@ -159,7 +159,9 @@ class C12(common.Spec):
         fo = obs['final_output'] if isinstance(obs['final_output'], int) else -1
         sc = [int(k) for k, v in case['script'].items() if v[1] == 'selfcancel']
         return ("{| oc_cfg := {| o_mode := %s; o_guard := %s; o_selfcancel := %s |};\n oc_steps := %s;\n"
-                " oc_final_output := %s |}") % (mode, cz(case['guard_us']), clist(sc, cnat), clist(steps), cz(fo))
+                " oc_final_output := %s; oc_stopid := %s |}") % (
+                    mode, cz(case['guard_us']), clist(sc, cnat), clist(steps), cz(fo),
+                    f"Some {cnat(STOP_ID)}" if case['stop_data'] else 'None')
 
     def nontrivial(self, case, obs):
         return sum(1 for e in obs['log'] if e[0] == 'start') >= 2
@@ -197,7 +199,7 @@ def gen_case(rng):
     script[str(LATE_ID)] = [rng.choice([50_000, 100_000]), 'ok']
     script[str(AFTER_ID)] = [50_000, 'ok']
     stop = rng.choice([times[-1], times[-1] + 50_000, times[-1] + 100_000, times[-1] + 1_000_000])
-    return dict(mode=mode, guard_us=guard, puts=puts, script=script, stop_us=stop,
+    return dict(mode=mode, abbrev=len(puts) % 3 == 0, guard_us=guard, puts=puts, script=script, stop_us=stop,
                 stop_data=rng.random() < 0.5, put_at_stop=rng.random() < 0.25,
                 put_after_stop=rng.random() < 0.25)
 
